@@ -96,7 +96,7 @@ def check(run, only=None):
         r = common.run_tlc("C04", "C04_thorough" if run.tier == "thorough" else "C04", env={"VERIF_SEED": run.seed}, timeout=3000, heap="10g")
         vecs = r["lines"]
     send = [{k: x for k, x in v.items() if k != "exp"} for v in vecs]
-    obs, hooks = common.run_pool(send, deadline_ms=1000)
+    obs, hooks = common.run_pool(send, deadline_ms=4000)
     run.hooks = hooks
     for v in vecs:
         o = obs[v["id"]]
